@@ -137,7 +137,7 @@ pub const OPS: &[&str] = &[
     "xml-number", "xml-attr-recordCount", "xml-attr-fileOffset", "xml-attr-length", "xml-type-swap", "xml-drop-attr", "xml-dup-line", "xml-del-line", "xml-swap-lines", "xml-min-gt-max", "xml-all-min-eq-max",
     "xml-proto-empty", "xml-proto-huge", "xml-entities", "xml-deep-nesting", "xml-bad-utf8", "xml-truncate", "xml-limits-hostile", "xml-invalid-state-range", "xml-precision",
     "hdr-field", "cv-header-field", "packet-header", "packet-stream-len", "blob-header", "payload-bits", "splice-sections", "packet-chain-ignored", "packet-big-1bit", "zero-width-all",
-    "unsealed-flip", "truncate", "extend", "tiny", "xml-length-huge", "xml-offset-into-crc",
+    "unsealed-flip", "truncate", "extend", "tiny", "xml-length-huge", "xml-offset-into-crc", "packet-retype-short",
 ];
 
 fn lines(xml: &str) -> Vec<&str> {
@@ -520,6 +520,33 @@ pub fn mutate(w: &Walk, seed_img: &[u8], opn: usize, r: &mut Rng, fc: &FastCrc) 
                 log[p + 6 + 2 * i..p + 8 + 2 * i].copy_from_slice(&v.to_le_bytes());
             }
             Some(Mutant { img: w.with_log(&log, fc), op, note: format!("packet @{}", p) })
+        }
+        "packet-retype-short" => {
+            // a data packet becomes an index (16 byte header) or ignored (4 byte header) packet whose length
+            // field is valid (multiple of 4) but shorter than / equal to / just above its own header
+            if w.packets.is_empty() {
+                return None;
+            }
+            let p = *r.pick(&w.packets);
+            let mut log = w.log.clone();
+            if p + 16 > log.len() {
+                return None;
+            }
+            let index = r.bool();
+            log[p] = if index { 0 } else { 2 };
+            log[p + 1] = 0;
+            let plen: u16 = *r.pick(&[4u16, 8, 12, 16, 20, 32]);
+            log[p + 2..p + 4].copy_from_slice(&(plen - 1).to_le_bytes());
+            if index {
+                // entry count, index level arbitrary; reserved bytes must be zero for the header to parse
+                log[p + 4] = 1;
+                log[p + 5] = 0;
+                log[p + 6] = 0;
+                for b in log[p + 7..p + 16].iter_mut() {
+                    *b = 0;
+                }
+            }
+            Some(Mutant { img: w.with_log(&log, fc), op, note: format!("packet @{} -> {} packet of length {}", p, if index { "index" } else { "ignored" }, plen) })
         }
         "blob-header" => {
             if w.blob_sections.is_empty() {
